@@ -31,6 +31,18 @@ pub fn seed_state(id: u8) -> Memfs {
             let _ = m.write_all("/a/g", b"gg");
             let _ = m.write_all("/b", b"y");
         },
+        4 => {
+            // different modes and owners everywhere: a query that reads its answer in two steps shows a mix
+            let _ = m.mkdir_m("/a", 0o750);
+            let _ = m.write_all("/a/f", b"x");
+            let _ = m.write_all("/b", b"yy");
+            let _ = m.mkdir_p("/d");
+            let _ = m.chmod("/a/f", 0o600);
+            let _ = m.chmod("/b", 0o755);
+            let _ = m.chown("/a", 1, 2);
+            let _ = m.chown("/a/f", 3, 4);
+            let _ = m.chown("/b", 5, 6);
+        },
         3 => {
             let _ = m.mkdir_p("/a/b");
             let _ = m.write_all("/a/f", b"x");
@@ -98,6 +110,7 @@ pub fn alphabet(full: bool) -> Vec<Op> {
             Op::Remove(s("/d")), // empty directory: emptiness check and removal must be one step
             Op::Mkfile(s("/d/x")),
             Op::MkdirP(s("/d/y/z")),
+            Op::MkdirP(s("b")), // relative and already there: the answer names the directory that exists
             Op::ReadlinkAbs(s("/l")),
             Op::Readlink(s("/s")),
             Op::Remove(s("/l")),
@@ -106,7 +119,7 @@ pub fn alphabet(full: bool) -> Vec<Op> {
     v
 }
 
-fn tag_appends(program: &mut [Vec<Op>]) {
+pub fn tag_appends(program: &mut [Vec<Op>]) {
     for (t, ops) in program.iter_mut().enumerate() {
         for (i, op) in ops.iter_mut().enumerate() {
             if let Op::AppendAll(_, d) = op {
@@ -396,7 +409,7 @@ fn stress(c: &Ctx, threads: usize, rounds: usize) {
 }
 
 pub fn run(c: &Ctx) {
-    c.set_rule("controlled scheduler on hook H1: real threads park before every MemfsGuard acquisition and exactly one is released at a time, so an execution is a function of (seed state, program, schedule). For every program ALL interleavings at critical-section granularity are enumerated depth-first (cap per program noted). Programs: quick = all 2-thread programs with (1,1) calls over a 15-form core alphabet and a seeded quarter of the (2,1) programs from a populated seed state, all 448 'two mutators of one directory vs one listing/reader' programs, and all (1,1) programs over the full 43-form alphabet from two more seed states (nested dirs + link; cwd below root); thorough = all (1,1),(2,1) over the 43-form alphabet, seeded samples of (2,2),(1,1,1),(2,1,1), four seed states, plus (both tiers) every rich call form of the VFS trait on every path of a seed state as a one-thread program (guard discipline: nesting is a property of the call alone) and every listed single-step call form on every path of that state racing each of 8 mutators (quick: a seeded half), plus 147 programs 'write/append handle session vs two calls that remove / replace its file' (no sequential equivalence claimed for the composite: no panic, no poisoned lock, no dead-lock, integrity); about half of all programs run through the Vfs enum wrapper instead of the Memfs value; plus uncontrolled 8-thread stress rounds. Oracle per execution: no nested guard acquisition (would dead-lock), no panic, every call returns, C03 invariants at quiescence, every successful append_all payload exactly once, and linearizability: per-call results (Ok values; Err-ness) and the final tree equal those of SOME sequential order of the same calls on a fresh instance that respects program order and real-time precedence. Non-trivial = execution in which calls of different threads overlap in time and one mutates; distinct by (seed, program, schedule).");
+    c.set_rule("controlled scheduler on hook H1: real threads park before every MemfsGuard acquisition and exactly one is released at a time, so an execution is a function of (seed state, program, schedule). For every program ALL interleavings at critical-section granularity are enumerated depth-first (cap per program noted). Programs: quick = all 2-thread programs with (1,1) calls over a 15-form core alphabet and a seeded quarter of the (2,1) programs from a populated seed state, all 448 'two mutators of one directory vs one listing/reader' programs, and all (1,1) programs over the full 44-form alphabet from two more seed states (nested dirs + link; cwd below root); thorough = all (1,1),(2,1) over the 44-form alphabet, seeded samples of (2,2),(1,1,1),(2,1,1), four seed states, plus (both tiers) every rich call form of the VFS trait on every path of a seed state as a one-thread program (guard discipline: nesting is a property of the call alone) and every listed single-step call form on every path of that state racing each of 8 mutators (quick: a seeded half), relative-path forms racing cwd changes, attribute queries racing replacing moves / chown / chmod on a seed state with distinct modes and owners, plus 147 programs 'write/append handle session vs two calls that remove / replace its file' (no sequential equivalence claimed for the composite: no panic, no poisoned lock, no dead-lock, integrity); about half of all programs run through the Vfs enum wrapper instead of the Memfs value; plus uncontrolled 8-thread stress rounds. Oracle per execution: no nested guard acquisition (would dead-lock), no panic, every call returns, C03 invariants at quiescence, every successful append_all payload exactly once, and linearizability: per-call results (Ok values; Err-ness) and the final tree equal those of SOME sequential order of the same calls on a fresh instance that respects program order and real-time precedence. Non-trivial = execution in which calls of different threads overlap in time and one mutates; distinct by (seed, program, schedule).");
     c.assume("all shared state of Memfs is behind the one RwLock (safe Rust): interleavings at guard granularity are complete; sequential specification = Memfs itself run single-threaded (functional correctness is C01's job)");
     install_hook();
     let quick = c.tier == Tier::Quick;
@@ -520,6 +533,29 @@ pub fn run(c: &Ctx) {
             tag_appends(&mut p);
             jobs.push((2, p, (i + j) % 2 == 1, false));
             race += 1;
+        }
+    }
+    // relative arguments racing a cwd change (seed state 3: cwd /a): resolution and action are one step
+    let rel_racers = vec![Op::SetCwd(s("/d")), Op::SetCwd(s("/")), Op::MoveP(s("/a"), s("/e")), Op::Remove(s("/a/f")), Op::MkdirP(s("/d/b"))];
+    for p in ["f", "b", ".", "../d", "b/new"] {
+        for f in crate::fsalpha::single_path_ops(p, false).into_iter().filter(|o| claimed(o) && !matches!(o, Op::MkfileM(..))) {
+            for (j, r) in rel_racers.iter().enumerate() {
+                let mut prog = vec![vec![f.clone()], vec![r.clone()]];
+                tag_appends(&mut prog);
+                jobs.push((3, prog, j % 2 == 1, false));
+                race += 1;
+            }
+        }
+    }
+    // queries racing calls that replace the entry or change its attributes (seed state 4: distinct modes / owners)
+    let attr_racers = vec![Op::MoveP(s("/b"), s("/a/f")), Op::Chown(s("/a/f"), 7, 8), Op::Chmod(s("/a/f"), 0o755), Op::WriteAll(s("/a/f"), b"W".to_vec()), Op::Remove(s("/a/f"))];
+    let queries = vec![Op::Owner(s("/a/f")), Op::Uid(s("/a/f")), Op::Gid(s("/a/f")), Op::Mode(s("/a/f")), Op::IsExec(s("/a/f")), Op::IsReadonly(s("/a/f")), Op::Entry(s("/a/f")), Op::ReadAll(s("/a/f")), Op::Entries(s("/a")), Op::IsFile(s("/a/f"))];
+    for q in &queries {
+        for r in &attr_racers {
+            for via in [false, true] {
+                jobs.push((4, vec![vec![q.clone()], vec![r.clone()]], via, false));
+                race += 1;
+            }
         }
     }
     c.note("call_form_vs_racer_programs", race);
